@@ -145,7 +145,7 @@ def generate(rng, tier):
     if tier == "quick":
         nP, nT, ct_hows, vias = 1400, 150, ["getstate", "pickle2", "deepcopy"], ["class"]
     elif tier == "thorough":
-        nP, nT, ct_hows, vias = 20000, 3000, CT_HOWS, ["as_ctrait", "class"]
+        nP, nT, ct_hows, vias = 150000, 5000, CT_HOWS, ["as_ctrait", "class"]
     else:
         nP, nT, ct_hows, vias = 8000, 1000, CT_HOWS, ["as_ctrait", "class"]
     # P: exhaustive small scope - every menu trait alone x every copy operation, set once
